@@ -181,7 +181,9 @@ CHECKS = {
         "back} are drawn and shrunk by Hypothesis' stateful engine; every conversion result, "
         "normalised by first-occurrence renaming of __ol_ names, must equal the result of the "
         "same call in a fresh interpreter process with the modelled options (8 configurations x "
-        "~50 pool programs of references, recomputed on every run).",
+        "~50 pool programs of references, recomputed on every run). Also: every ordered pair of the "
+        "state-sensitive programs in one process, a sweep of random-generator states, and every pool "
+        "program converted in fresh processes under other string-hash seeds (same text required).",
         "Assumes two fresh processes differ only in random suffixes (re-checked on a ninth of the "
         "references each run). Histories are bounded (10 / 16 steps).",
         "DESIGN.md section 3, C10"),
